@@ -165,3 +165,32 @@ def coprime_part(f: KT, nz: KT) -> KT:
             break
         g = g // h
     return g
+
+
+def field_size(K):
+    return K.p ** getattr(K, "d", 1)
+
+
+def rational_part(f: KT) -> KT:
+    """gcd(f, t^|K| − t): the product of the distinct linear factors of f, i.e. exactly its roots in K"""
+    K = f.K
+    if f.is_const():
+        return f
+    f = f.monic()
+    if f.deg() == 1:
+        return f
+    q = field_size(K)
+    t = KT.var(K) % f
+    r = KT.const(K, K.one())
+    b = t
+    n = q
+    while n:                      # t^q mod f by square-and-multiply
+        if n & 1:
+            r = (r * b) % f
+        b = (b * b) % f
+        n >>= 1
+    return gcd(r - t, f)
+
+
+def has_root(f: KT) -> bool:
+    return not rational_part(f).is_const()
